@@ -2053,7 +2053,9 @@ class Generator:
         with_properties = []
 
         for p in expression.expressions:
-            p_loc = self.PROPERTIES_LOCATION[p.__class__]
+            p_loc = self.PROPERTIES_LOCATION.get(
+                p.__class__, exp.Properties.Location.UNSUPPORTED
+            )
             if p_loc == exp.Properties.Location.POST_WITH:
                 with_properties.append(p)
             elif p_loc == exp.Properties.Location.POST_SCHEMA:
@@ -2099,7 +2101,9 @@ class Generator:
     def locate_properties(self, properties: exp.Properties) -> defaultdict:
         properties_locs = defaultdict(list)
         for p in properties.expressions:
-            p_loc = self.PROPERTIES_LOCATION[p.__class__]
+            p_loc = self.PROPERTIES_LOCATION.get(
+                p.__class__, exp.Properties.Location.UNSUPPORTED
+            )
             if p_loc != exp.Properties.Location.UNSUPPORTED:
                 properties_locs[p_loc].append(p)
             else:
